@@ -25,6 +25,9 @@ func checkC16(p *Prog, r *Report) {
 	c16HarvestSites(p, r)
 	c16Switches(p, r)
 	c16FixedWindow(p, r)
+	// sowing, harvest and window dates are text in the configured date format
+	dateTextRules(p, r, "C16.R11")
+	inputHelpers(p, r, "C16.R12")
 }
 
 // C16.R9 — "with fixed dates sowing and harvest happen on the dates of the
